@@ -41,6 +41,16 @@ def build(case):
         {"type": "end repeat"},
     ]
     byname = {r.get("name"): r for r in rows}
+    if any(site == "grouprow" for site, _ in case["saveto"]):
+        # save_to on a section row is refused whatever the section is and however its keyword is spelled (legacy repeat aliases included)
+        import zlib
+
+        k = zlib.crc32(repr(sorted(case.items())).encode()) % 5
+        b, e = [("begin group", "end group"), ("begin_group", "end_group"), ("begin lgroup", "end lgroup"), ("begin looped group", "end looped group"),
+                ("begin repeat", "end repeat")][k]
+        i = rows.index(byname["g1"])
+        rows[i]["type"] = b
+        rows[i + 2]["type"] = e
     saveto = []
     for site, cls in case["saveto"]:
         prop = PROP[cls] or f"prop_{site}"
